@@ -550,6 +550,64 @@ fn lane_deep(ctx: &mut Ctx) {
             ctx.inconclusive("heavy block did not become the anchor".into());
             continue;
         }
+        // three-way variant: a close runner-up that keeps pace with the main branch (lagging by a
+        // small margin) plus a short third fork, all rooted at the anchor
+        if k % 3 == 2 {
+            let lag = h.rng.range(1, 12);
+            let third = h.rng.range(1, 3);
+            let mut tips = [b1, b1, b1];
+            let mut lens = [0u64, 0, 0];
+            let limit: u64 = if quick { 330 } else { *h.rng.pick(&[330u64, 420, 520]) };
+            let mut advanced = false;
+            let mut max_depth = 0u64;
+            'grow: for i in 0..(2 * limit + 8) {
+                if !ctx.time_left() {
+                    ctx.cov.count("deep_cases_cut_by_the_time_budget");
+                    break;
+                }
+                // which fork grows: the third one first, then main and runner-up alternately
+                let f = if lens[2] < third {
+                    2
+                } else if lens[1] + lag < lens[0] && i % 2 == 1 {
+                    1
+                } else {
+                    0
+                };
+                if lens[0] >= limit {
+                    break;
+                }
+                let bl = h.gen_block(&tips[f]);
+                match h.deliver(bl, 1, ctx) {
+                    Some(x) => {
+                        tips[f] = x;
+                        lens[f] += 1;
+                    }
+                    None => break 'grow,
+                }
+                let before = h.model.stable_height();
+                if !h.opportunity(ctx) {
+                    break;
+                }
+                max_depth = max_depth.max(lens[0]);
+                if h.model.stable_height() > before {
+                    advanced = true;
+                    ctx.cov.count("c03_depth_escape_advances_observed");
+                    break;
+                }
+            }
+            ctx.cov.count("deep_three_way_cases");
+            ctx.cov.max("max_unstable_depth_reached", max_depth);
+            if ctx.cov.samples.len() < 3 {
+                ctx.cov.sample(serde_json::json!({"net": crate::gen::net_name(net), "threshold": threshold, "forks_at_anchor": 3,
+                    "main": lens[0], "runner_up": lens[1], "third": lens[2], "anchor_advanced": advanced}));
+            }
+            if let Some(d) = &h.desync {
+                if ctx.cov.violations.iter().all(|v| v.case != k || v.lane != "deep") {
+                    ctx.inconclusive(format!("deep chain abandoned: {}", d));
+                }
+            }
+            continue;
+        }
         // competitor branch of length c hanging off the anchor
         let c: u64 = *h.rng.pick(&[0u64, 1, 2, 10, 60, 200]);
         let c = if quick { c.min(10) } else { c };
